@@ -165,6 +165,9 @@ func vGo(name string, f func()) {
 
 func vYield() { runtime.Gosched() }
 
+// vQuiesce waits until the system under test has (very probably) nothing left to do.
+func vQuiesce() { time.Sleep(30 * time.Millisecond) }
+
 func vAtEnd(f func()) {
 	zz.mu.Lock()
 	zz.atEnd = append(zz.atEnd, f)
